@@ -343,4 +343,8 @@ func decoding(c *an.Ctx, rule string) {
 	} else {
 		c.Und(rule, "config.buildTask", token.NoPos, "the function that builds a task.Task from a taskDefinition was not found")
 	}
+	// … and so does every function that copies a task field by field (a Clone used for per-stage / per-event copies)
+	for _, cp := range taskCopiers(p) {
+		c.Check(cp.copied["Timeout"], rule, an.Short(cp.fn)+":copies(Task.Timeout)", cp.fn.Pos(), "the field-by-field copy of a task carries the timeout over", fmt.Sprintf("%s copies a task field by field (%d fields) but not its Timeout: a task run through that copy has no timeout, its overrunning commands run to completion and the following commands start", an.Short(cp.fn), len(cp.copied)))
+	}
 }
